@@ -117,3 +117,10 @@ claim(
     "Trusted: the topology tables and delta-connection computation in acnverif/props/c16.py; nominal 120/208 V, unity power factor.",
     "DESIGN.md 3/C16",
 )
+claim(
+    "C18",
+    "Hypothesis-generated completed simulations plus generated request lists / phase triples / thresholds; every analysis function recomputed from first principles (rate matrix, spec voltages, phases, coefficients, session energies)",
+    "Exploration: 300 (quick) / 20 000 (thorough) generated simulations with heterogeneous voltages, three-phase mixed-sign constraints, fractional periods, aware and naive starts. aggregate_current/power, constraint_currents (keys and magnitudes for arbitrary sub-multisets in arbitrary order, both flag values), energy totals and proportions, demands met for five thresholds, NEMA unbalance for arbitrary phase triples and datetimes_array (length, start, spacing) equal their definitions to 1e-9.",
+    "Trusted: the first-principles formulas in acnverif/props/c18.py; constraint currents compared by magnitude (flag semantics are pinned by the repository's own test, DESIGN.md 5).",
+    "DESIGN.md 3/C18",
+)
